@@ -51,7 +51,7 @@ Boundary ==
 Replay == Len(hist) = 0 \/ Len(hist) > ReplayLen \/ PrintT(<<"REPLAY", ToJson([h |-> hist, done |-> E!Complete(gs), rows |-> [i \in DOMAIN Final |-> <<Final[i].t, Final[i].k>>]])>>)
 
 \* complete single sections (for the concatenation law of C10)
-NDiff == Cardinality({i \in DOMAIN hist : hist[i].c = "diff"})
+NDiff == Cardinality({i \in DOMAIN hist : hist[i].c \in {"diff", "sublog"}})     \* section starts
 OneSection == NDiff <= 1
 ReplaySections == ~(NDiff = 1 /\ E!Complete(gs) /\ Len(hist) <= ReplayLen)
                   \/ PrintT(<<"SECTION", ToJson(hist)>>)
